@@ -2,12 +2,12 @@
 # Run a property's check against a seeded change applied in a scratch worktree (never /repo).
 # usage: eval_seed.sh <seed-id e.g. C17-m2> [tier]   -> /verif/seeded/<id>/result.<tier>.txt
 id=$1; tier=${2:-quick}; pid=${id%%-*}
-wt=/tmp/seed/$pid
+case "$id" in *-r2*) wt=/tmp/seed2/$pid;; *) wt=/tmp/seed/$pid;; esac
 cd /verif
 git -C $wt checkout -q -- . && git -C $wt clean -fdq -e target
 git -C $wt apply /verif/seeded/$id/patch.diff || { echo "patch does not apply" > seeded/$id/result.$tier.txt; exit 3; }
 start=$(date +%s)
-bin/check $pid --tier $tier --repo $wt > seeded/$id/result.$tier.txt 2>&1
+bin/check $pid --tier $tier ${ONLY:+--only $ONLY} --repo $wt > seeded/$id/result.$tier.txt 2>&1
 rc=$?
 echo "exit=$rc wall=$(( $(date +%s) - start ))s base=$(git -C $wt rev-parse --short HEAD)" >> seeded/$id/result.$tier.txt
 git -C $wt checkout -q -- . && git -C $wt clean -fdq -e target
